@@ -63,7 +63,7 @@ func c10List(msgs []*fbb.Message, err error) string {
 
 func runC10(ctx *Ctx) error {
 	r, res := ctx.Rng, ctx.Res
-	res.Rule = "histories over a universe of 7 MIDs (incl. one sorting before '.' in file-name order, one containing a dot and one ending in the mailbox's own extension), 3 recipient forms, forwarder lists {none, one, two, mixed case, the same station twice or in two spellings} and the P2P-only flag: AddOut, Prepare, restart with a fresh DirHandler (normal / send-only), GetOutbound, SetSent, SetDeferred, ProcessInbound, GetInboundAnswer, SetUnread, folder listings; random histories of length 4..40 (a third of them about one message within one long session) and (thorough) all histories of length <= 4 over a reduced alphabet. Every observation of the real DirHandler on a temporary directory is compared with the model; returned outbound messages must carry no X-FilePath / X-Unread / X-P2POnly header. SetSent of a MID not in the outbox (log.Fatalf) is run in a child process. Non-trivial: history with a SetSent or an inbound message followed by a query; distinct by history."
+	res.Rule = "histories over a universe of 7 MIDs (incl. one sorting before '.' in file-name order, one containing a dot and one ending in the mailbox's own extension), 3 recipient forms, forwarder lists {none, one, two, mixed case, the same station twice or in two spellings} and the P2P-only flag: AddOut, Prepare, restart with a fresh DirHandler (normal / send-only), GetOutbound, SetSent, SetDeferred, ProcessInbound, GetInboundAnswer, SetUnread (a third of them set, reversed and set again on the same listed message), folder listings; random histories of length 4..40 (a third of them about one message within one long session) and (thorough) all histories of length <= 4 over a reduced alphabet. Every observation of the real DirHandler on a temporary directory is compared with the model; returned outbound messages must carry no X-FilePath / X-Unread / X-P2POnly header. SetSent of a MID not in the outbox (log.Fatalf) is run in a child process. Non-trivial: history with a SetSent or an inbound message followed by a query; distinct by history."
 	root, err := os.MkdirTemp("", "verif-c10-")
 	if err != nil {
 		return err
@@ -193,6 +193,7 @@ func runC10(ctx *Ctx) error {
 			case 10:
 				f := r.Intn(3)
 				u := r.Intn(2) == 0
+				toggle := r.Intn(3) == 0 // flag set, reversed and set again on the SAME listed message: the last call decides
 				steps = append(steps, step{fmt.Sprintf("unread %s %s %s", ti(f), ts(mid), tb(u)), func(h **mailbox.DirHandler, dir string) string {
 					var msgs []*fbb.Message
 					switch f {
@@ -207,6 +208,14 @@ func runC10(ctx *Ctx) error {
 						if m.MID() == mid {
 							if err := mailbox.SetUnread(m, u); err != nil {
 								return "error"
+							}
+							if toggle {
+								if err := mailbox.SetUnread(m, !u); err != nil {
+									return "error"
+								}
+								if err := mailbox.SetUnread(m, u); err != nil {
+									return "error"
+								}
 							}
 						}
 					}
